@@ -48,7 +48,7 @@ RULE = ("every schedule with at most P preemptions (P = budget; switches forced 
         "[event] platform_event_t with two waiter threads: manual-reset x {timed+timed, timed+infinite, infinite+infinite} with one set(), auto-reset x "
         "{infinite+infinite, timed+infinite} with two set(): every infinite waiter released, a manual-reset event stays signalled until reset, auto-reset "
         "accounting sets == released + still-signalled; "
-        "scheduling points: pthread_create/join, mutex lock/trylock/unlock, cond wait/timedwait/clockwait/signal/broadcast, nanosleep/usleep, "
+        "scheduling points (before the operation; additionally after pthread_mutex_unlock and pthread_create): pthread_create/join, mutex lock/trylock/unlock, cond wait/timedwait/clockwait/signal/broadcast, nanosleep/usleep, "
         "clock_gettime, epoll_wait, select, read/write on eventfd and the console pipe; virtual clock; CHESS fairness for yielding threads; "
         "horizon 700 scheduling points per execution; no state merging (plain stateless DFS)")
 
@@ -105,7 +105,7 @@ def run(ck):
         # bound 3 everywhere (DESIGN), and one more where it is cheap
         dl, iters, el_ms = 1500, 1000, 80000
         ck.explore(exe, ["--body=1", "--waits=3"], "post", budget=4, deadline_s=dl)
-        ck.explore(exe, ["--body=2", "--vmask=3"], "queue-fail-drop", budget=4, deadline_s=dl)
+        ck.explore(exe, ["--body=2", "--vmask=3"], "queue-fail-drop", budget=3, deadline_s=dl)     # bound 4 = 3.3 M schedules, 15 min: too close to the cap
         ck.explore(exe, ["--body=2", "--vmask=4"], "queue-block", budget=3, deadline_s=dl)
         ck.explore(exe, ["--body=3"], "worker", budget=5, deadline_s=dl)
         ck.explore(exe, ["--body=4"], "timer", budget=5, deadline_s=dl)
